@@ -107,6 +107,8 @@ def split(
                                basins=True,
                                filtered=True,
                                compression_kwargs=cmp_kw,
+                               # remove leftovers of an interrupted run
+                               override=True,
                                )
 
         if w:
